@@ -407,7 +407,8 @@ theorem writeBytes_spec (c : Chunk) (b : Bytes) (h : c.Inv) (c' : Chunk) (e : Op
           all_goals simp [be16, be32, be64]
         have r' : Reserve c c2 (1 + ((Codec.lenPrefix b.length).length - 1 + b.length)) (x - 1) :=
           ⟨r2.inv, by rw [r2.limit, r1.limit], hun0, by omega, by have := r2.idx; omega, by omega,
-           fun _ => by omega, fun hlt => by omega, by rw [unread_length c h] at hrx; omega⟩
+           fun _ => by omega, fun hlt => by omega, by rw [unread_length c h] at hrx; omega,
+           by rcases r2.rp with h1 | h1 <;> rcases r1.rp with h2 | h2 <;> simp [h1, h2]⟩
         obtain ⟨p1, p2, p3, _⟩ := poke_reserve r' (Codec.lenPrefix b.length ++ b) (by simp; omega)
         exact ⟨p1, p2, fun _ => p3, by simp⟩
 
